@@ -49,3 +49,14 @@ Proof.
     destruct x as [|px]; [destruct dir; [congruence|]; rewrite E; reflexivity|].
     repeat (destruct px as [px|px|]; try (destruct dir; [congruence|]; rewrite E; reflexivity)); congruence.
 Qed.
+
+(* the only paths without a parent are the empty path and "/" (neither can be opened as a file) *)
+Lemma path_parent_none p : path_parent p = None <-> p = [] \/ p = [47].
+Proof.
+  unfold path_parent. destruct p as [|c t]; [split; auto|].
+  split.
+  - destruct (last_slash (c :: t) 0 None) as [[|i]|] eqn:E; try discriminate.
+    destruct t; [|discriminate]. intros _. right. cbn [last_slash] in E.
+    destruct (c =? 47) eqn:Ec; [apply N.eqb_eq in Ec; subst; reflexivity|discriminate].
+  - intros [H|H]; [discriminate|]. inversion H; subst. reflexivity.
+Qed.
